@@ -1334,7 +1334,7 @@ def run(ctx, rep):
     rep.rule('C19.N', "tensor-only torch functions are never applied to a plain Python number in the builders")
     rep.not_decided += ["finiteness of density and gradient at the initial point", "pairwise option coverage at run time", "plugins"]
     from props import c19_ids, c19_flow
-    steps = ((check_types_and_keys, 'C19.K'), (check_jacobians, 'C19.J'), (check_jacobian_terms_are_evaluable, 'C19.J'), (check_jacobians_are_not_stacked_on_skipped_transforms, 'C19.J'), (check_make_unconstrained, 'C19.U'), (check_fixed_parameters_stay_fixed, 'C19.U'), (check_tree_initial_values, 'C19.U'), (check_unconstraining_covers_the_configuration, 'C19.U'), (check_advi_transforms, 'C19.U'), (c19_ids.check_ids, 'C19.R'),
+    steps = ((check_types_and_keys, 'C19.K'), (check_jacobians, 'C19.J'), (check_jacobian_terms_are_evaluable, 'C19.J'), (check_jacobians_are_not_stacked_on_skipped_transforms, 'C19.J'), (check_make_unconstrained, 'C19.U'), (check_fixed_parameters_stay_fixed, 'C19.U'), (check_tree_initial_values, 'C19.U'), (check_helper_objects_are_built_alike, 'C19.U'), (check_unconstraining_covers_the_configuration, 'C19.U'), (check_advi_transforms, 'C19.U'), (c19_ids.check_ids, 'C19.R'),
              (c19_flow.check_exhaustive, 'C19.E'), (c19_flow.check_pynum, 'C19.N'), (check_stale_loop_variables, 'C19.V'), (c19_ids.check_none_sizes, 'C19.G'), (c19_ids.check_reference_types, 'C19.D'), (c19_ids.check_side_channels, 'C19.O'), (c19_ids.check_first_user_is_emitted_first, 'C19.O'), (c19_ids.check_zero_versus_missing, 'C19.Z'))
     for f, rule in steps:
         try:
@@ -1588,6 +1588,49 @@ def check_initial_values_off_singularities(ctx, rep):
                           f"density and its gradient are NaN at the starting point")
     if n < 3:
         rep.incomplete('C19.S', '*', '', f"only {n} initial values of divisor parameters found")
+
+
+# ---------------------------------------------------------------------------
+# C19.U (addition) — helper objects built to read initial values off the input tree are built from the specification that is emitted
+# ---------------------------------------------------------------------------
+def check_helper_objects_are_built_alike(ctx, rep):
+    """To write initial values, the builders load the specification they have just assembled (`TreeModel.from_json(tree_model, …)`) and read the object.  In one function the
+    same specification variable is loaded in several branches (ratio / shift heights): the branches agree on the overrides they apply (`dict(spec, key=value)`) — an option
+    that only one branch passes makes the initial values of the other parameterisation come from another tree than the one the user asked for."""
+    n = 0
+    for mn, m in sorted(ctx.prog.modules.items()):
+        if not mn.startswith(CLI):
+            continue
+        for fname, fn in sorted(m.functions.items()):
+            groups = {}
+            for c in ast.walk(fn):
+                if not (isinstance(c, ast.Call) and isinstance(c.func, ast.Attribute) and c.func.attr == 'from_json' and c.args):
+                    continue
+                a = c.args[0]
+                base, keys = None, frozenset()
+                if isinstance(a, ast.Name):
+                    base = a.id
+                elif isinstance(a, ast.Call) and isinstance(a.func, ast.Name) and a.func.id == 'dict' and a.args and isinstance(a.args[0], ast.Name):
+                    base, keys = a.args[0].id, frozenset(k.arg for k in a.keywords if k.arg)
+                elif isinstance(a, ast.Dict) and any(k is None for k in a.keys):
+                    spread = [v for k, v in zip(a.keys, a.values) if k is None and isinstance(v, ast.Name)]
+                    if spread:
+                        base, keys = spread[0].id, frozenset(k.value for k in a.keys if isinstance(k, ast.Constant))
+                if base is not None:
+                    groups.setdefault(base, []).append((c, keys))
+            for base, sites in groups.items():
+                if len(sites) < 2:
+                    continue
+                n += 1
+                kinds_ = {k for _, k in sites}
+                dev = [c for c, k in sites if k != sites[0][1]]
+                rep.check('C19.U', f"{mn.replace('torchtree.', '')}::{fname}::{base}::helper-objects-built-alike", len(kinds_) == 1, where(m, dev[0]) if dev else where(m, fn),
+                          {'overrides': [sorted(k) for _, k in sites]},
+                          f"{fname} loads the specification `{base}` {len(sites)} times to read initial values off it, with different overrides ({[sorted(k) for _, k in sites]}): the "
+                          f"parameterisation whose branch lacks the override starts from other values than the ones requested")
+    rep.analysed['helper_object_groups'] = n
+    if n < 1:
+        rep.incomplete('C19.U', 'helper-objects', '', 'no function loading one specification in several branches found (create_tree_model expected)')
 
 
 # ---------------------------------------------------------------------------
